@@ -174,3 +174,139 @@ theorem replaceWith_one_effect {h h' : Heap} {x y p : Nat} (hg : Good2 h) (hp : 
               · rw [hpa y]; simp
 
 end BS.Heap
+
+namespace BS.Heap
+
+/-- inserting one non-BeautifulSoup element is one `_insert` -/
+theorem insert_single_node {h h' : Heap} {p i c : Nat} {ins : List Nat} (hc : h.kind c ≠ .soup)
+    (hi : insert h p i [.node c] = .ok (h', ins)) : insertCore h p i c = .ok h' := by
+  unfold insert at hi
+  simp only [insertArgs, insertArg1, hc, if_false, insertElems] at hi
+  cases hcore : insertCore h p i c with
+  | error e => simp only [hcore] at hi; cases hi
+  | ok h3 =>
+    simp only [hcore] at hi
+    cases hidx : indexOf h3 p c with
+    | none => simp only [hidx] at hi; cases hi
+    | some j => simp only [hidx] at hi; cases hi; rfl
+
+/-- the loop of `unwrap`: children `cs` of the detached `x`, inserted one by one (in reverse) at index `i` of `p` -/
+theorem unwrapLoop_effect (x p : Nat) (hxp : x ≠ p) : ∀ (rcs : List Nat) (h h' : Heap) (pre done post : List Nat),
+    Good2 h → (h.kind p).isTag = true → h.kids p = pre ++ done ++ post → h.kids x = rcs.reverse →
+    unwrapLoop h p pre.length rcs = .ok h' →
+    Good2 h' ∧ h'.kids p = pre ++ (rcs.reverse ++ done) ++ post ∧ h'.kids x = [] ∧
+    (∀ n, n ≠ p → n ≠ x → h'.kids n = h.kids n) ∧
+    (∀ n, h'.parent n = if n ∈ rcs then some p else h.parent n) := by
+  intro rcs
+  induction rcs with
+  | nil =>
+    intro h h' pre done post hg _ hk hx hu
+    simp only [unwrapLoop] at hu; cases hu
+    exact ⟨hg, by simpa using hk, by simpa using hx, fun _ _ _ => rfl, fun n => by simp⟩
+  | cons c rcs ih =>
+    intro h h' pre done post hg hp hk hx hu
+    simp only [unwrapLoop] at hu
+    obtain ⟨hgood, hstr⟩ := hg
+    obtain ⟨w, hwf⟩ := hgood
+    have hcx : c ∈ h.kids x := by rw [hx]; simp
+    have hcs : h.kind c ≠ .soup := wf_kid_not_soup hwf hcx
+    have hcpar : h.parent c = some x := hwf.kid_parent x c hcx
+    have hcnotp : c ∉ h.kids p := by
+      intro hm; have := hwf.kid_parent p c hm; rw [hcpar] at this; cases this; exact hxp rfl
+    cases hins : insert h p pre.length [.node c] with
+    | error e => simp only [hins] at hu; cases hu
+    | ok r =>
+      obtain ⟨h1, ins⟩ := r
+      simp only [hins] at hu
+      have hcore := insert_single_node hcs hins
+      obtain ⟨hg1, hks1⟩ := insertCore_good2 extract_spec linkChild_spec ⟨⟨w, hwf⟩, hstr⟩ hp hcs hcore
+      obtain ⟨hsp, hso, hpa⟩ := insertCore_shape extract_spec linkChild_spec ⟨w, hwf⟩ hp hcs hcore
+      have hkp1 : h1.kids p = pre ++ (c :: done) ++ post := by
+        rw [hsp, List.erase_of_not_mem hcnotp]
+        have hslot : slotOf (h.kids p) pre.length c = pre.length := by
+          unfold slotOf
+          rw [List.erase_of_not_mem (fun hm => hcnotp (List.mem_of_mem_take hm)), hk]
+          simp [List.length_take]
+        rw [hslot, hk, List.append_assoc, insertIdx_append_length]
+        simp
+      have hkx1 : h1.kids x = rcs.reverse := by
+        rw [hso x hxp, hx]
+        have hnd := good_kids_nodup ⟨w, hwf⟩ x
+        rw [hx] at hnd
+        simp only [List.reverse_cons] at hnd ⊢
+        have hcn : c ∉ rcs.reverse := by
+          intro hm
+          have := List.nodup_append.mp hnd
+          exact this.2.2 c hm c (by simp) rfl
+        rw [List.erase_append_right _ hcn]; simp
+      have := ih h1 h' pre (c :: done) post hg1 (by rw [hks1.1 p]; exact hp) hkp1 hkx1 hu
+      obtain ⟨hg', hkp', hkx', hko', hpa'⟩ := this
+      refine ⟨hg', by rw [hkp']; simp, hkx', ?_, ?_⟩
+      · intro n hnp hnx
+        rw [hko' n hnp hnx, hso n hnp]
+        apply List.erase_of_not_mem
+        intro hm; have := hwf.kid_parent n c hm; rw [hcpar] at this; cases this; exact hnx rfl
+      · intro n
+        rw [hpa' n, hpa n]
+        by_cases hnr : n ∈ rcs
+        · simp [hnr]
+        · by_cases hnc : n = c <;> simp [hnr, hnc]
+
+/-- **unwrap()**: `x` is replaced by its children, in order, exactly at its slot; `x` comes back detached and
+    childless; nothing else moves -/
+theorem unwrap_effect {h h' : Heap} {x p : Nat} {pre post : List Nat} (hg : Good2 h) (hp : h.parent x = some p)
+    (hk : h.kids p = pre ++ x :: post) (hu : unwrap h x = .ok h') :
+    Good2 h' ∧ h'.kids p = pre ++ h.kids x ++ post ∧ h'.kids x = [] ∧ h'.parent x = none ∧
+    (∀ n, n ≠ p → n ≠ x → h'.kids n = h.kids n) ∧ (∀ c ∈ h.kids x, h'.parent c = some p) := by
+  obtain ⟨hgood, hstr⟩ := hg
+  obtain ⟨w, hwf⟩ := hgood
+  have hptag := wf_parent_isTag hwf hp
+  have hnd := good_kids_nodup ⟨w, hwf⟩ p
+  have hxp : x ≠ p := by
+    intro hc; subst hc
+    -- a node is not its own parent: pos strictly increases from parent to child
+    have := wf_parent_pos hwf hp
+    omega
+  have hxpre : x ∉ pre := by
+    intro hm; rw [hk] at hnd
+    have := List.nodup_append.mp hnd
+    exact this.2.2 x hm x (by simp) rfl
+  unfold unwrap at hu
+  simp only [hp] at hu
+  have hidx : indexOf h p x = some pre.length := by
+    unfold indexOf; rw [hk]; exact idxOf?_append_cons_of_not_mem pre post x hxpre
+  simp only [hidx] at hu
+  cases he : extract h x with
+  | error e => simp only [he] at hu; cases hu
+  | ok h1 =>
+    simp only [he] at hu
+    obtain ⟨hg1, hk1, hp1, hkind1, hnext1⟩ := extract_good extract_spec ⟨w, hwf⟩ he
+    have hg1' : Good2 h1 := ⟨hg1, fun n hn => by rw [hkind1]; exact hstr n (by omega)⟩
+    have hkp1 : h1.kids p = pre ++ [] ++ post := by
+      rw [hk1 p]; simp only [hp, if_true, hk, List.append_nil]
+      rw [List.erase_append_right _ hxpre]; simp
+    have hkx1 : h1.kids x = h.kids x := by
+      rw [hk1 x]
+      have : h.parent x ≠ some x := by rw [hp]; intro hh; cases hh; exact hxp rfl
+      simp [this]
+    have := unwrapLoop_effect x p hxp (h1.kids x).reverse h1 h' pre [] post hg1' (by rw [hkind1]; exact hptag) hkp1
+      (by simp) hu
+    obtain ⟨hg', hkp', hkx', hko', hpa'⟩ := this
+    refine ⟨hg', by rw [hkp', hkx1]; simp, hkx', ?_, ?_, ?_⟩
+    · rw [hpa' x, hp1 x]
+      have : x ∉ (h1.kids x).reverse := by
+        intro hm
+        have hm' : x ∈ h.kids x := by rw [← hkx1]; exact List.mem_reverse.mp hm
+        have := hwf.kid_parent x x hm'
+        rw [hp] at this; cases this; exact hxp rfl
+      simp [this]
+    · intro n hnp hnx
+      rw [hko' n hnp hnx, hk1 n]
+      have : h.parent x ≠ some n := by rw [hp]; intro hh; cases hh; exact hnp rfl
+      simp [this]
+    · intro c hc
+      rw [hpa' c]
+      have : c ∈ (h1.kids x).reverse := by rw [hkx1]; exact List.mem_reverse.mpr hc
+      simp [this]
+
+end BS.Heap
